@@ -168,19 +168,7 @@ def _check_asserts(ck, R, fi, env, label):
     return n
 
 
-def check(ck):
-    R1, R2, R3 = "C12.R1", "C12.R2", "C12.R3"
-    ck.rule(R1, "qualified-name pattern (regex AST): shape (cluster '::')? module ':' function ('#' version)?; '#' is "
-                "excluded from cluster, ':' and '#' from module, '#' from function; version is unrestricted and last", 6)
-    ck.rule(R2, "builder/parser agreement: the delimiters concatenated when a qualified name is built equal the literals "
-                "of the pattern; the unversioned name is cut at the first '#'", 4)
-    ck.rule(R3, "exception escape on the metadata read path: everything the function lookup may raise is converted into "
-                "the external fallback; no assert on the fallback path can fail for a parse result; the metadata source "
-                "treats unresolvable functions as absent", 5)
-    pq = FA(ck, FR + ".parse_qualified_name")
-    ms = [c for c in pq.calls("match") if A.call_dotted(c) in ("re.match", "re.fullmatch")]
-    if len(ms) != 1 or not A.const_str(ms[0].args[0]):
-        raise AnalysisError("parse_qualified_name no longer uses one re.match with a literal pattern (unsupported idiom)")
+def _regex_parser(ck, R1, pq, ms):
     pat = A.const_str(ms[0].args[0])
     tree = sre_parse.parse(pat)
     groups = dict(tree.state.groupdict)
@@ -207,6 +195,76 @@ def check(ck):
     rets = pq.returns()
     okg = bool(rets) and all(pq.xnorm(r.value).startswith(("re.match(", "re.fullmatch(")) and pq.xnorm(r.value).endswith(").groupdict()") for r in rets)
     ck.ob(R1, pq.key(None, "groupdict"), okg, "the parts are the named groups" if okg else "parse_qualified_name does not return match.groupdict()", pq.where())
+    return shape
+
+
+def _partition_parser(ck, R1, pq):
+    """The parser written with str.partition / rpartition / split(sep, 1) / rsplit(sep, 1) instead of
+    a regular expression.  The qualified name is `[cluster::]module:function[#version]` where the
+    version is free text (it may contain '#', '::' and ':') and is appended last, so: the version is
+    cut at the FIRST '#' of the whole string, the cluster at the first '::' and the module at the first
+    ':' of what precedes the '#'."""
+    ops = {}
+    for c in pq.calls():
+        nm = A.call_attr(c)
+        if nm in ("partition", "rpartition", "split", "rsplit") and c.args and A.const_str(c.args[0]) is not None:
+            sep = A.const_str(c.args[0])
+            if nm in ("split", "rsplit"):
+                mx = c.args[1] if len(c.args) > 1 else A.kwarg(c, "maxsplit")
+                which = "every" if mx is None or A.norm(mx) != "1" else ("first" if nm == "split" else "last")
+            else:
+                which = "first" if nm == "partition" else "last"
+            ops.setdefault(sep, []).append((which, c))
+    if set(ops) != {"#", "::", ":"} or any(len(v) != 1 for v in ops.values()):
+        raise AnalysisError("parse_qualified_name uses neither one re.match with a literal pattern nor one partition/split per "
+                            "delimiter ('#', '::', ':'): unsupported idiom (found %s)" % {k: len(v) for k, v in ops.items()})
+    param = [p for p in pq.fi.params if p not in ("self", "cls")]
+    wit = {"#": ("m:f#a#b", "a version containing '#' is split inside the version: the function name swallows part of it"),
+           "::": ("c::m:f#x", "the cluster prefix is not cut at the first '::'"),
+           ":": ("m:f", "the module is not cut at the first ':' (a nested function name 'a:b' style qualname moves into the module)")}
+    for sep, tag in (("#", "version-split-first"), ("::", "cluster-split-first"), (":", "module-split-first")):
+        which, c = ops[sep][0]
+        ok = which == "first"
+        ck.ob(R1, pq.key(None, tag), ok, "%r: the string is cut at its first occurrence" % sep if ok else
+              "`%s` cuts at the %s occurrence of %r; for %r %s" % (A.short(c, 50), which, sep, wit[sep][0], wit[sep][1]), pq.where(c))
+    # the '#' cut is applied to the whole name, the others to what precedes it
+    which, c = ops["#"][0]
+    d = pq.deps(A.call_recv(c))
+    okw = d <= {"param:" + x for x in param}
+    ck.ob(R1, pq.key(None, "version-cut-on-whole-name"), okw, "the version is cut off the whole name first" if okw else
+          "the '#' cut is not applied to the whole qualified name", pq.where(c))
+    for sep in ("::", ":"):
+        which, c = ops[sep][0]
+        d = pq.deps(A.call_recv(c))
+        oku = any(x in d for x in ("call:partition", "call:split", "call:rpartition", "call:rsplit"))
+        ck.ob(R1, pq.key(None, "cut-before-version:" + sep), oku, "%r is looked for in the part that precedes the version" % sep if oku else
+              "%r is looked for in a string that still contains the version (a version may contain it)" % sep, pq.where(c))
+    rets = [r for r in pq.returns() if isinstance(r.value, ast.Dict)]
+    keys = {A.const_str(k) for r in rets for k in r.value.keys}
+    okk = bool(rets) and keys == {"cluster", "module", "function", "version"}
+    ck.ob(R1, pq.key(None, "groupdict"), okk, "the parts are returned as cluster / module / function / version" if okk else
+          "parse_qualified_name does not return the four named parts", pq.where())
+    return ("::", ":", "#")
+
+
+def check_parser(ck, R1):
+    pq = FA(ck, FR + ".parse_qualified_name")
+    ms = [c for c in pq.calls("match") if A.call_dotted(c) in ("re.match", "re.fullmatch")]
+    if len(ms) == 1 and A.const_str(ms[0].args[0]):
+        return _regex_parser(ck, R1, pq, ms)
+    return _partition_parser(ck, R1, pq)
+
+
+def check(ck):
+    R1, R2, R3 = "C12.R1", "C12.R2", "C12.R3"
+    ck.rule(R1, "qualified-name pattern (regex AST): shape (cluster '::')? module ':' function ('#' version)?; '#' is "
+                "excluded from cluster, ':' and '#' from module, '#' from function; version is unrestricted and last", 6)
+    ck.rule(R2, "builder/parser agreement: the delimiters concatenated when a qualified name is built equal the literals "
+                "of the pattern; the unversioned name is cut at the first '#'", 4)
+    ck.rule(R3, "exception escape on the metadata read path: everything the function lookup may raise is converted into "
+                "the external fallback; no assert on the fallback path can fail for a parse result; the metadata source "
+                "treats unresolvable functions as absent", 5)
+    shape = check_parser(ck, R1)
 
     # ---- R2
     if shape is not None:
@@ -275,8 +333,11 @@ def check(ck):
                   "prefix, so the cluster is dropped from an external reference and qualified_name_without_cluster is cut inside the version"
                   % (A.short(n, 50), d_cluster, d_cluster), ini.where(n))
 
-    from .c05 import check_escape_inverse
-    check_escape_inverse(ck, R2)
+    from .c05 import check_escape_inverse, check_strip_is_not_prefix_removal
+    ck.run(check_escape_inverse, ck, R2)
+    ck.run(check_strip_is_not_prefix_removal, ck, R2)
+    from .c11 import check_reference_resolved_afresh
+    ck.run(check_reference_resolved_afresh, ck, R3)
     # ---- R3 (a): handler coverage in from_qualified_name
     fq = FA(ck, FR + ".from_qualified_name")
     ff = FA(ck, FR + "._find_function")
